@@ -115,6 +115,7 @@ class ResourcePool {
     DISPENSO_TSAN_ANNOTATE_IGNORE_WRITES_BEGIN();
     pool_.wait_dequeue(t);
     DISPENSO_TSAN_ANNOTATE_IGNORE_WRITES_END();
+    DISPENSO_VERIF_POINT(::dispenso::verif::kResPoolAfterAcquire);
     return Resource<T>(t, this);
   }
 
